@@ -11,20 +11,27 @@ for sid in sorted(os.listdir(os.path.join(HERE, "seeded"))):
     if not os.path.exists(patch) or (only and sid not in only):
         continue
     pid = sid.split("-")[0]
+    # a seed may also be caught by an obligation that belongs to another property's check
+    ALSO = {"C05-1": ["C20"]}
     st = subprocess.run(["git", "-C", "/repo", "status", "--porcelain"], capture_output=True, text=True).stdout.strip()
     if st:
         print("refusing: /repo has local changes:\n" + st); sys.exit(2)
     ap = subprocess.run(["git", "-C", "/repo", "apply", patch], capture_output=True, text=True)
     if ap.returncode != 0:
         print(sid, "patch does not apply:", ap.stderr[:300]); continue
+    other = {}
     try:
         r = subprocess.run([os.path.join(HERE, "check"), pid, "quick"], cwd=HERE, capture_output=True, text=True, timeout=3600)
+        for op in ALSO.get(sid, []):
+            ro = subprocess.run([os.path.join(HERE, "check"), op, "quick"], cwd=HERE, capture_output=True, text=True, timeout=3600)
+            vo = re.findall(r'^VIOLATION property=\S+ replay=\S+ obligation=(\S+)( no-failing-input-found)?', ro.stdout, re.M)
+            other[op] = {"check_exit": ro.returncode, "obligations": [v[0] for v in vo][:10], "replayed_on_real_code": any(not v[1] for v in vo)}
     finally:
         subprocess.run(["git", "-C", "/repo", "checkout", "--", "."])
     vio = re.findall(r'^VIOLATION property=\S+ replay=\S+ obligation=(\S+)( no-failing-input-found)?', r.stdout, re.M)
     res = {"seed": sid, "property": pid, "check_exit": r.returncode, "detected": r.returncode == 1,
            "obligations": [v[0] for v in vio][:40], "replayed_on_real_code": any(not v[1] for v in vio),
-           "summary": r.stdout.strip().split("\n")[-1][:300]}
+           "summary": r.stdout.strip().split("\n")[-1][:300], "other_property_checks": other}
     json.dump(res, open(os.path.join(d, "detection.json"), "w"), indent=1)
     rows.append(res)
     print("%-8s exit=%d detected=%s replayed=%s  %s" % (sid, r.returncode, res["detected"], res["replayed_on_real_code"], ", ".join(res["obligations"][:3])))
